@@ -138,9 +138,11 @@ def oracleSolve (U : Universe) (P : Problem) (cfg : String) (r : ImplSolve) (pri
   | other => info ++ [s!"oracle-fail C04,C10,C13 outcome: unexpected result {other}"]
   (
     -- C09 / C10 at-most-once on every outcome; causality for sync runs without hints
-    let d := match dupCalls (prior ++ r.calls) with
-      | some c => [s!"oracle-fail C09,C10,C13 at-most-once: provider call {c} issued twice on this solver"]
-      | none => []
+    let d := match dupWithin r.calls with
+      | some c => [s!"oracle-fail C09,C10,C13 at-most-once: provider call {c} issued twice during one solve"]
+      | none => match dupCalls (prior ++ r.calls) with
+        | some c => [s!"oracle-fail C09,C10,C13 at-most-once: provider call {c} issued again although its answer had been obtained by an earlier solve on this solver"]
+        | none => []
     -- C11 / C10: asynchronous runs
     let known := (prior.filter (·.startsWith "C")).map (fun w => nat! (w.drop 1).toString)
     let c11 := if sync then [] else
